@@ -53,7 +53,7 @@ class C04(Prop):
                 script = h["fetch_scripts"].get(i, [])
                 rp = {"driver": "TestVerifC04Dedup: pollForNewRequests with scripted pending-list replies", "history": h["name"],
                       "lists": h["lists"] if len(ids) <= 40 else "(%d lists, %d ids)" % (len(h["lists"]), len(ids)), "id": i,
-                      "fetch_script": script, "backend_invocations": inv, "fetch_attempts": h["fetch_attempts"].get(i)}
+                      "fetch_script": script, "upload_script": (h.get("upload_scripts") or {}).get(i), "backend_invocations": inv, "fetch_attempts": h["fetch_attempts"].get(i)}
                 if inside and inv > 1:
                     res.append(("agent:forwarded-twice", "request %s was forwarded to the backend %d times" % (i, inv), rp))
                 if inside and inv == 0 and not any(script):
